@@ -25,7 +25,7 @@ SPEC = dict(
                  "used by the documented cerr/cout example",
                  "g++ 12 ASan/UBSan runtimes with _GLIBCXX_ASSERTIONS; UBSan vptr check disabled"],
     modes=[
-        dict(name="configs", flavour="asan", cases={"quick": 8000, "thorough": 300000}, timeout=3600,
+        dict(name="configs", flavour="asan", cases={"quick": 20000, "thorough": 150000}, timeout=7200,
              require_stats=["messages", "deliveries", "expected_deliveries", "expected_non_deliveries", "expected_throws",
                             "duplicate_ignore", "duplicate_replace", "precheck_probes_with_passing_message",
                             "precheck_said_discard", "sends_via_LOG_macro", "sends_via_Logging_log"]),
